@@ -62,10 +62,7 @@ theorem c06_edge_cycle (g : Graph) (hs : g.simpleB = true) (hp : g.positiveB = t
     listWeight g (edgeCycle p e) ≤ 2 * (k : Int) * g.weight e := by
   exact Spanner.edge_cycle_bound g hs hp k hk scan hscan e he p hshort
 
-/- `c06_bound_partial`: the general guarantee `w(emitted) ≤ (2k-1) · w(B)` for every cycle basis `B` of `g`
-(Kavitha–Mehlhorn–Michail) needs a partition of an optimal basis and a system of distinct
-representatives for the dropped edges; it is NOT proved.  Proved ingredients: `c15_stretch`,
-`c06_edge_cycle`, `C02.c02_min` for the spanner part, `c15_k1` (k = 1 is exact).  The bound itself is
-checked per run against the independent optimum. -/
+/- The global guarantee `w(emitted) ≤ (2k-1) · w(B)` for every cycle basis `B` of `g` (Kavitha–Mehlhorn–Michail) is
+`C06.c06_bound` in Props/C06b.lean. -/
 
 end Parmcb.C05
